@@ -53,6 +53,33 @@ def resolution_cases(ctx):
             ctx.violation("C20:resolution:check:" + type_name, "check type %r -> %s" % (type_name, got), {"type": type_name, "got": got})
 
 
+_LATE_CLASSES = []
+
+
+def late_definition_cases(ctx):
+    """a user class that comes into existence after CIDs have already been created in this process resolves like any other"""
+    from cutplace import checks, fields, interface
+
+    n = len(_LATE_CLASSES)
+    name = "LateDefined%d" % n
+    warm = interface.Cid()
+    warm.read("warm", [["D", "Format", "Delimited"], ["F", "a", "", "", "", "Integer", ""], ["C", "c0", "IsUnique", "a"]])
+    late_field = type(name + "FieldFormat", (fields.AbstractFieldFormat,), {"validated_value": lambda self, value: value})
+    late_check = type(name + "Check", (checks.AbstractCheck,), {})
+    _LATE_CLASSES.extend([late_field, late_check])
+    for kind, rows, pick in (("field", [["D", "Format", "Delimited"], ["F", "a", "", "", "", name, ""]], lambda c: type(c.field_formats[0])),
+                             ("check", [["D", "Format", "Delimited"], ["F", "a"], ["C", "c0", name, "a"]], lambda c: type(c.check_map["c0"]))):
+        cid = interface.Cid()
+        try:
+            cid.read("late", rows)
+            got = "ok" if pick(cid) is (late_field if kind == "field" else late_check) else "wrong-class"
+        except Exception as error:  # noqa
+            got = core.classify_exception(error)
+        ctx.count(key=("resolve-late", kind), branch="resolve")
+        if got != "ok":
+            ctx.violation("C20:resolution:late-defined-%s" % kind, "%s class %s defined after other CIDs were created -> %s" % (kind, name, got), {"kind": kind, "got": got})
+
+
 PLUGIN_SOURCE = '''
 from cutplace import checks, errors, fields
 
@@ -128,7 +155,7 @@ def run(ctx):
     rnd = ctx.rnd
     ctx.rule = ("CIDs with 1-4 harness-defined recording fields (empty flag, length, allowed characters varied) and 0-3 recording checks (accepting, vetoing, "
                 "failing at the end) x tables of 0-6 rows x header 0-2 x validation limit x three modes x reader (class / function API) and writer x two runs "
-                "on one CID; recorded call sequence vs the model's log; plus class-name resolution cases and an import_plugins() subprocess; "
+                "on one CID; recorded call sequence vs the model's log; plus class-name resolution cases (qualified names, wrong case, classes defined after other CIDs were created) and an import_plugins() subprocess; "
                 "distinct = distinct scenario; non-trivial = at least one call recorded")
     n = 1200 if ctx.tier == "quick" else 15000
     scns = []
@@ -159,7 +186,7 @@ def run(ctx):
                              "rows": table, "close": rnd.random() < 0.85, "stop": rnd.choice([None, None, None, 1, 2])})
             else:
                 runs.append({"kind": "W", "rows": table, "close": rnd.random() < 0.85})
-        scns.append({"format": fmt, "allowed": allowed, "fields": fields, "checks": checks, "header": header, "runs": runs})
+        scns.append({"format": fmt, "line": rnd.choice(["lf", "cr", "crlf", "any", "none"]), "allowed": allowed, "fields": fields, "checks": checks, "header": header, "runs": runs})
     for scn, mruns, iruns in engine.run_scenarios(scns):
         sc = engine.strip_scn(scn)
         if isinstance(mruns, str) or isinstance(iruns, str):
@@ -185,6 +212,7 @@ def run(ctx):
             elif diffs:
                 ctx.note_drift({"diffs": diffs, "case": case})
     resolution_cases(ctx)
+    late_definition_cases(ctx)
     plugin_folder_case(ctx)
 
 
